@@ -171,8 +171,18 @@ func genDistOnce(r *kernel.Rng, cfg DistGenCfg) (disttypes.Params, bool) {
 			}
 		}
 		nsh := r.Range(0, 3)
+		// "filled" mode: n equal shares that leave only n*1e-18 (or nothing but dust) to the primary destination
+		filled := r.P(0.25)
+		var fillShare sdk.Dec
+		if filled {
+			nsh = r.Range(2, 4)
+			fillShare = sdk.NewDecFromBigIntWithPrec(new(big.Int).Quo(budget.BigInt(), big.NewInt(int64(nsh))), 18)
+		}
 		for k := 0; k < nsh; k++ {
 			sh := genShare(r)
+			if filled {
+				sh = fillShare
+			}
 			if !sh.LT(budget) {
 				sh = budget.QuoInt64(2)
 			}
